@@ -213,7 +213,86 @@ def one_case(rec, tap, rng, cid):
                 "points_used": int(np.sum(idnt["fit range"]))}, limit=4)
 
 
+N_MISMATCH = {"quick": 8, "thorough": 250}     # per shard
+
+
+def mismatch_case(rec, rng, cid):
+    """contact-point-relative range on a curve that does NOT follow the model
+    outside the requested interval (stiffening at large depth, tilted
+    baseline): the contact point moves from pass to pass.  Reference: the
+    harness' own chain of absolute-range fits (whole segment, then re-anchored
+    at the contact point fitted last); where that chain has converged (the
+    last two passes use the same points) the library's final fit range has
+    to be those points - 'at convergence the interval is [cp+a, cp+b]'."""
+    spec = fitlab.draw_curve_spec(rng, models=["hertz_para"],
+                                  npts=(400, 1000), noise_snr=(0, 300, 100),
+                                  with_tip=True)
+
+    def build():
+        idnt, truth = fitlab.build_curve(spec)
+        r = np.random.default_rng(spec["noise_seed"] + 1)
+        f = np.array(idnt._raw_data["force"], copy=True)
+        tip = np.array(idnt._raw_data["tip position"], copy=True)
+        depth = np.clip(truth["full"]["contact_point"] - tip, 0, None)
+        dmax = depth.max()
+        f = f + truth["span"] * r.uniform(.05, .4) * 2 * (
+            np.clip(depth - .5 * dmax, 0, None) / dmax) ** 2 \
+            + truth["span"] * r.uniform(-.05, .05) * (tip - tip.min()) \
+            / np.ptp(tip)
+        idnt._raw_data["force"] = f
+        return idnt, truth, dmax
+    idnt, truth, dmax = build()
+    a = -float(rng.uniform(.3, .6) * dmax)
+    b = float(rng.uniform(.2, 1.) * (spec["zmax"]
+                                     - truth["full"]["contact_point"]))
+    case = {"id": cid, "spec": spec, "kind": "model-mismatch",
+            "range_x": [a, b]}
+    try:
+        idnt.fit_model(model_key="hertz_para", range_type="relative cp",
+                       range_x=[a, b], weight_cp=0)
+    except BaseException as e:  # noqa
+        rec.event("mismatch curve: relative fit raised " + type(e).__name__)
+        return
+    if not idnt.fit_properties.get("success"):
+        return
+    # reference chain (absolute ranges only)
+    ref_i, _, _ = build()
+    masks, cps = [], []
+    try:
+        ref_i.fit_model(model_key="hertz_para", range_type="absolute",
+                        range_x=[0, 0], weight_cp=0)
+        for _ in range(6):
+            cp = ref_i.fit_properties["params_fitted"]["contact_point"].value
+            cps.append(cp)
+            ref_i.fit_model(range_x=[cp + a, cp + b])
+            masks.append(np.array(ref_i["fit range"], dtype=bool))
+    except BaseException as e:  # noqa
+        rec.event("mismatch curve: reference chain raised "
+                  + type(e).__name__)
+        return
+    rec.evaluated(dg=(spec, a, b, "mismatch"))
+    # converged within the three re-anchored passes the library documents
+    if not (np.array_equal(masks[1], masks[2]) and
+            np.array_equal(masks[2], masks[5])):
+        rec.event("mismatch curves whose reference chain has not converged "
+                  "after three passes (not judged)")
+        return
+    rec.event("mismatch curves judged against the converged interval")
+    got = np.array(idnt["fit range"], dtype=bool)
+    rec.check(np.array_equal(got, masks[2]),
+              "relative/not-the-converged-interval",
+              "relative cp fit uses %d points, the converged interval "
+              "[cp+a, cp+b] holds %d (%d differ); contact point moved by "
+              "%.1f sample spacings between the first two passes"
+              % (got.sum(), masks[2].sum(), int(np.sum(got != masks[2])),
+                 abs(cps[1] - cps[0]) / (np.ptp(np.asarray(
+                     idnt["tip position"])) / spec["n"] / 2)), case)
+
+
 def _run_shard(rec, tier, seed, shard, nshards):
+    for i in range(N_MISMATCH[tier]):
+        cid = [shard, 10 ** 6 + i]
+        mismatch_case(rec, core.case_rng(seed, ID, cid[0], cid[1]), cid)
     with fitlab.MinimizeTap() as tap:
         for i in range(N_CASES[tier]):
             one_case(rec, tap, core.case_rng(seed, ID, shard, i), [shard, i])
